@@ -274,10 +274,13 @@ def rule_RC(ctx, fm):
     want = set()
     for a, ax in enumerate('xyz'):
         want.add((f'{xi}[:,{a}]', 'Lt', f'{gn}.nodes_{ax}[1]'))
-        want.add((f'{xi}[:,{a}]', 'Gt', f'{gn}.nodes_{ax}[-2]'))
+        # (canonical orientation: `x > n[-2]` is held as `n[-2] < x`)
+        want.add((f'{gn}.nodes_{ax}[-2]', 'Lt', f'{xi}[:,{a}]'))
     for w in sorted(want):
+        col = [t for t in (w[0], w[2]) if t.startswith(xi)][0][-2]
+        nod = [t for t in (w[0], w[2]) if not t.startswith(xi)][0]
         ctx.check('C09.RC.mask', f'get_receiver NaN mask column '
-                  f'{w[0][-2]} {w[1]} {w[2].split(".")[-1]}', w in got,
+                  f'{col} vs {nod.split(".")[-1]}', w in got,
                   'receivers in the outermost cells on this side are not '
                   'set to NaN', ctx.where(fm, inds[0]),
                   sample={'comparison': list(w)})
